@@ -65,6 +65,12 @@ CHECKS = {
         technique="relational oracle on executions + reference-model monitor (closed-form heat-capacity correlations)",
         ref="DESIGN.md 2/C10",
     ),
+    "C11": dict(
+        text="Runtime monitoring of history and schedule independence on executions of the real State cache. (A) Key level, through a hook that addresses one cached derivative: for random models of all 14 EoS families (1-3 components) and random states, every request (Zeroth, First, Second, SecondMixed in both orders, Third over V, T, N_i: 29 requests for a binary) is evaluated first on a fresh state (canonical value); then every sequence of length 1 and 2 (exhaustive), length 3 (exhaustive on half of the <= 2-component states in the thorough tier, sampled otherwise) and random sequences up to length 50 run on fresh states and on clones; every returned value and, after each sequence, every entry present in the cache (including silently stored by-products) is compared with the canonical value; clones must not share the cache. (B) 52 public getters in random histories up to length 50 with clones midway, against first-evaluation values with a measured round-off scale per getter. (C) Thread storms: 2-16 threads on one Arc<State> issue random key/getter programs, a hook before the cache lock perturbs the schedule (yield / spin / sleep); client-side results and the recorded cache-event trace (sequence, thread, key, hit, value) are checked offline: every value canonical, keys that are never by-products bitwise stable, per-thread events identical to that thread's calls; distinct interleavings and thread switches are counted and gated. (D) PhaseDiagram::par_pure vs pure for random (threads 1-16, chunksize, npoints 3-60) over the shipped pure records: same number of states, same order, same values. (E) The same storm and par_pure on feos-core under ThreadSanitizer (-Zsanitizer=thread -Zbuild-std, both tiers) and Miri (-Zmiri-many-seeds, 64 schedules, thorough).",
+        note="Values are compared to 1e-10 of a natural scale (by-products come from a different dual-number type and differ in the last bits; measured <= 3e-12), relaxed like 1/x_i for derivatives with respect to trace components. Duplicate computation of a key by two threads is counted, not judged (values unchanged). par_pure drops points for the records of finding F10 (unguided pure solve fails): KNOWN-FINDING. Sanitizer build failures / time-outs are inconclusive, never violations.",
+        technique="runtime monitor: reference values from fresh states + offline trace checker over hooked cache events under perturbed thread schedules; ThreadSanitizer and Miri on the concurrent workload",
+        ref="DESIGN.md 2/C11",
+    ),
     "C12": dict(
         text="Differential monitoring of guess independence on executions: every must-succeed pure record of the shipped collections at 3 (quick) / 20 (thorough) temperatures, solved at T and at p without guess and guided by an equilibrium up to 0.3 T_c away; PC-SAFT hydrocarbon pairs without liquid-liquid demixing: bubble / dew points with pressure guesses within a factor 3 and none / exact / blurred vapour-composition guesses, flashes restarted from bubble or dew equilibria; every point of PhaseDiagram::pure, binary_vle, bubble_point_line and dew_point_line (random npoints 3..62, random start temperature) against the stand-alone solve at that point; the same pure diagram with the 'given state' and 'ideal gas' initialisations made to fail by failpoints (hook-observed) so every point restarts from the spinodal; Newton-wrapper constructors (p,h), (p,s), (T,s), (T,p) from two different initial temperatures / densities on supercritical states. Guided and unguided solutions compared in T, p, both densities and both compositions (1e-7; 1e-6 where the solver tolerance is on another quantity). Recorded defect: collapse to a near-trivial pair of phases close to the critical point (F33) is KNOWN-FINDING.",
         note="A guided call that fails is allowed (statement: 'and converges'). Dew-line points within 3 % of the highest dew temperature are skipped: the dew pressure at given T is two-valued there, so inequality of two solves is not a violation.",
